@@ -1024,6 +1024,59 @@ def slice_pattern_matches(fn):
     return n
 
 
+def tuple_if_let(fn):
+    """D45  `if let (P1, P2, ..) = (e1, e2, ..) { T }` (no else; the e_i side-effect free)  ->  the nest of tests of the components, left to right:
+            `true` -> `if e_i`, `false` -> `if !e_i`, `_` / a plain binding -> nothing / `let`, any other pattern -> `if let P_i = e_i`."""
+    n = 0
+
+    def rw(x):
+        nonlocal n
+        if isinstance(x, list):
+            return [rw(v) for v in x]
+        if not isinstance(x, dict):
+            return x
+        for k_, v in list(x.items()):
+            if isinstance(v, (dict, list)):
+                x[k_] = rw(v)
+        if x.get("k") != "if" or x.get("el") is not None:
+            return x
+        c = _unblk(x["c"])
+        if c is None or c.get("k") != "letx":
+            return x
+        pat = c["pat"]
+        while pat.get("k") in ("ref", "deref"):
+            pat = pat["p"]
+        init = _unblk(c["init"])
+        if pat.get("k") != "tuple" or init is None or init.get("k") != "tup" or len(pat["ps"]) != len(init["xs"]) or not all(_pure_expr(e) or _pure_access(e) for e in init["xs"]):
+            return x
+        if not any(q.get("k") == "plit" for q in pat["ps"]):
+            return x
+        line = x.get("line")
+        inner = x["th"]
+        for q, e in reversed(list(zip(pat["ps"], init["xs"]))):
+            q0 = q
+            while q0.get("k") in ("ref", "deref"):
+                q0 = q0["p"]
+            wrap = lambda node: {"k": "blk", "b": {"k": "block", "stmts": [node], "tail": None}, "line": line}
+            if q0.get("k") == "wild":
+                continue
+            if q0.get("k") == "plit" and str(q0.get("v")) in ("true", "false"):
+                cond = e if str(q0["v"]) == "true" else {"k": "un", "op": "Not", "x": e, "line": line}
+                inner = wrap({"k": "if", "c": cond, "th": inner, "el": None, "line": line})
+            elif q0.get("k") == "bind" and not q0.get("sub"):
+                body = inner if inner.get("k") == "blk" and inner.get("lbl") is None else wrap(inner)
+                inner = {"k": "blk", "b": {"k": "block", "stmts": [{"k": "let", "pat": q, "init": e, "els": None, "line": line}] + list(body["b"]["stmts"]), "tail": body["b"].get("tail")}, "line": line}
+            else:
+                inner = wrap({"k": "if", "c": {"k": "letx", "pat": q, "init": e, "line": line}, "th": inner, "el": None, "line": line})
+        n += 1
+        if inner.get("k") == "blk" and len(inner["b"]["stmts"]) == 1 and inner["b"].get("tail") is None and inner["b"]["stmts"][0].get("k") == "if":
+            return inner["b"]["stmts"][0]
+        return inner
+    if fn.get("body") is not None:
+        fn["body"] = rw(fn["body"])
+    return n
+
+
 def deref_of_ref(fn):
     """D43  `*&X` / `*&mut X`  ->  `X`   (what a by-reference parameter substituted by its argument leaves behind)"""
     n = 0
@@ -1282,6 +1335,19 @@ def option_combinators(fn):
                 n += 1
                 return m
             return x
+        # `opt.iter().for_each(|p| body)` / `opt.iter_mut().for_each(..)`  ->  `if let Some(p) = &opt { body }` / `&mut opt`
+        if x.get("k") == "mcall" and x.get("name") == "for_each" and len(x["args"]) == 1:
+            r0 = _unblk(x["recv"])
+            cl0 = _unblk(x["args"][0])
+            if (r0 is not None and r0.get("k") == "mcall" and r0.get("name") in ("iter", "iter_mut") and not r0["args"] and str(r0.get("callee", "")).startswith(OPT)
+                    and _pure_access(r0["recv"]) and cl0 is not None and cl0.get("k") == "closure" and len(cl0.get("params") or []) == 1
+                    and not any(y.get("k") == "ret" for y in _walk(cl0["body"]))):
+                line = x.get("line")
+                body = cl0["body"] if cl0["body"].get("k") == "blk" else {"k": "blk", "b": {"k": "block", "stmts": [cl0["body"]], "tail": None}, "line": line}
+                n += 1
+                return {"k": "if", "c": {"k": "letx", "pat": {"k": "tstruct", "path": "std::prelude::v1::Some", "ps": [cl0["params"][0]]},
+                                         "init": {"k": "ref", "mut": r0["name"] == "iter_mut", "x": r0["recv"], "line": line}, "line": line},
+                        "th": body, "el": None, "line": line, "from_option_combinator": "for_each"}
         # `v.extend_from_slice(&w)`  ->  `v.extend(w.clone())`   (w a whole local vector; definition of extend_from_slice for T: Clone)
         if x.get("k") == "mcall" and x.get("name") == "extend_from_slice" and len(x["args"]) == 1 and str(x.get("callee", "")).startswith("std::vec::Vec::<T, A>::"):
             a0 = _unblk(x["args"][0])
@@ -3950,6 +4016,7 @@ def run(facts):
         counts["match_guards"] = counts.get("match_guards", 0) + match_guards(fn)
         counts["bool_matches"] = counts.get("bool_matches", 0) + bool_match_to_if(fn)
         counts["loop_break_values"] = counts.get("loop_break_values", 0) + loop_break_value(fn)
+        counts["tuple_if_let"] = counts.get("tuple_if_let", 0) + tuple_if_let(fn)
         counts["slice_matches"] = counts.get("slice_matches", 0) + slice_pattern_matches(fn)
         counts["deref_of_ref"] = counts.get("deref_of_ref", 0) + deref_of_ref(fn)
         counts["loop_exit_tests"] = counts.get("loop_exit_tests", 0) + loop_exit_tests(fn)
